@@ -79,19 +79,19 @@ theorem C12_invariant_init (track : Bool) : CInv R RE E [] [] { c := { track := 
 /-- **`add` keeps the partition** (`CompositeFrontend._add`: the new constraints are split into independent groups; for each group
 the children owning one of its variables are found (`_solver_for_names`: the closure loop finds exactly those), merged, claimed
 copy-on-write, given the constraints and stored, `_store_child` re-pointing every variable of the child; a concretely false
-constraint sets `_unsat`).  `hC` is the specification of `combine` (the merged child) — see `C12_full`. -/
-theorem C12_add_keeps_partition (H : SolverHyps R RE E) (hC : CombineSpec R RE E) {U : List Con} {Us : List (List Con)} {s : CSt}
+constraint sets `_unsat`).  The merged child is what `combine` builds: `C12_combine_correct`. -/
+theorem C12_add_keeps_partition (H : SolverHyps R RE E) {U : List Con} {Us : List (List Con)} {s : CSt}
     (h : CInv R RE E U Us s) (cs : List Con) (hcs : ∀ c ∈ cs, R c) (hconc : ∀ c ∈ cs, c.vars = [] → c.conc ≠ none) :
     ∃ added Us' s', compAdd E cs s = (.ok added, s') ∧ CInv R RE E (U ++ cs) Us' s' :=
-  compAdd_spec H (childFoot H) hC h cs hcs hconc
+  compAdd_spec H (childFoot H) (combineSpec H (childFoot H)) h cs hcs hconc
 
 /-- the step for one independent group (`_add_dependent_constraints`): the children owning a variable of the group are replaced
 by one child holding their constraints and the new ones; the other children are not touched -/
-theorem C12_add_dependent_keeps_partition (H : SolverHyps R RE E) (hC : CombineSpec R RE E) {U : List Con}
+theorem C12_add_dependent_keeps_partition (H : SolverHyps R RE E) {U : List Con}
     {Us : List (List Con)} {s : CSt} (h : CInv R RE E U Us s) (names : List Var) (cs : List Con) (hcs : ∀ c ∈ cs, R c)
     (hcv : ∀ c ∈ cs, ∀ v ∈ c.vars, v ∈ names) (hne : cs ≠ []) (hvne : ∀ c ∈ cs, c.vars ≠ []) :
     ∃ added Us' s', addDependent E names cs s = (.ok added, s') ∧ (∀ c ∈ added, c ∈ cs) ∧ CInv R RE E (U ++ cs) Us' s' :=
-  addDependent_spec H (childFoot H) hC h names cs hcs hcv hne hvne
+  addDependent_spec H (childFoot H) (combineSpec H (childFoot H)) h names cs hcs hcv hne hvne
 
 /-- **`satisfiable()` answers for the whole constraint list** (no extra constraints): the unchecked children are asked one by one
 (`check_satisfiability` of the child class: cached verdict, trivial-constraint shortcut, backend); independent children have a
@@ -107,20 +107,36 @@ theorem C12_satisfiable_correct (H : SolverHyps R RE E) {U : List Con} {Us : Lis
 mention the child's variables only) -/
 theorem C12_child_footprint (H : SolverHyps R RE E) : ChildFoot R RE E := childFoot H
 
+/-- **`combine` delivers the merged child** (`ConstrainedFrontend.combine` + `ModelCacheMixin.combine`, called by
+`_solver_for_names` when the names are owned by several children `j :: rest`): a new child that satisfies the C11 invariant
+for the conjunction of the parts' constraints, knows exactly their variables, and whose cached models (the first
+`len(self._models)` products of one cached model per part, in whatever order `itertools.product` walks the sets) are all
+valid; nobody else changes.  This was the hypothesis `CombineSpec` of the earlier rounds. -/
+theorem C12_combine_correct (H : SolverHyps R RE E) : CombineSpec R RE E := combineSpec H (childFoot H)
+
+/-- the reason the cache part is right: cached models are dicts over the child's own variables (`KeysInv`, part of `CInv`), the
+children share no variable, so the product of one cached model per child agrees on each child's variables with the model
+taken from that child and satisfies every child's constraints -/
+theorem C12_combine_models_valid (H : SolverHyps R RE E) {U : List Con} {Us : List (List Con)} {s : CSt}
+    (h : CInv R RE E U Us s) (L : List Nat) (hnd : L.Nodup) (hin : ∀ j ∈ L, j ∈ s.c.solverList) (t : List PModel)
+    (ht : List.Forall₂ (fun m j => m ∈ (s.child j).models) t L) :
+    ∀ j ∈ L, Models (s.child j).constraints ((PModel.combine t).complete E.dflt) :=
+  combine_valid H.reg h L hnd hin t ht
+
 /-- **histories of `add` / `satisfiable()`** on one CompositeFrontend, from the empty one: every answer is the one the property
 statement demands for ALL the constraints added so far (or an honest give-up of a child's backend) -/
-theorem C12_composite_partial (H : SolverHyps R RE E) (hC : CombineSpec R RE E) (track : Bool) (hist : List Op)
+theorem C12_composite_partial (H : SolverHyps R RE E) (track : Bool) (hist : List Op)
     (hok : ∀ op ∈ hist, InScopeCP R op) :
     ∀ x ∈ runComp E { c := { track := track }, w := { fes := [] } } [] hist, JudgeOrGiveUp E x.1 x.2.1 x.2.2 :=
-  comp_hist H hC hist _ _ _ (cinv_init R RE E track) hok
+  comp_hist H hist _ _ _ (cinv_init R RE E track) hok
 
-/-- non-vacuity: the hypotheses hold in the consistent environment of C11 (there no two children can own names, so `combine`
-is never reached), for a history that constrains, asks, pins, asks, adds a concretely false constraint, asks -/
-example : SolverHyps cR cRE cEnv ∧ CombineSpec cR cRE cEnv ∧ ∀ op ∈ cCompHist, InScopeCP cR op :=
-  ⟨cHyps, cCombineSpec, cCompHist_ok⟩
+/-- non-vacuity: the hypotheses hold in the consistent environment of C11, for a history that constrains, asks, pins, asks,
+adds a concretely false constraint, asks -/
+example : SolverHyps cR cRE cEnv ∧ ∀ op ∈ cCompHist, InScopeCP cR op :=
+  ⟨cHyps, cCompHist_ok⟩
 
 example : ∀ x ∈ runComp cEnv { c := {}, w := { fes := [] } } [] cCompHist, JudgeOrGiveUp cEnv x.1 x.2.1 x.2.2 :=
-  C12_composite_partial cHyps cCombineSpec false cCompHist cCompHist_ok
+  C12_composite_partial cHyps false cCompHist cCompHist_ok
 
 /-! ### `simplify` does NOT keep the partition (the code as written; answers are not affected)
 
